@@ -296,7 +296,7 @@ def _unit_env(ctx, f: Func, fl: IndexFields) -> Dict[str, str]:
     return env
 
 
-@rule("C06.R3", ["C06", "C02"], min_instances=1, design="3.6")
+@rule("C06.R3", ["C06", "C02", "C01", "C07"], min_instances=1, design="3.6")
 def position_vs_rank(ctx):
     """Ranks (indices into the sorted timestamps) and storage positions are never mixed."""
     fl = fields_of(ctx)
@@ -311,7 +311,7 @@ def position_vs_rank(ctx):
                 if isinstance(l, ast.Name) and isinstance(r, ast.Name) and l.id in env and r.id in env:
                     n_sites += 1
                     bad = env[l.id] == "RANK" and env[r.id] == "POSSET"
-                    yield Ob("C06.R3", ["C06", "C02"], f"{f.qual} | membership | {norm(n)}", not bad,
+                    yield Ob("C06.R3", ["C06", "C02", "C01", "C07"], f"{f.qual} | membership | {norm(n)}", not bad,
                              (f"`{l.id}` is a rank in the sorted timestamps but `{r.id}` holds storage "
                               f"positions" if bad else f"{env[l.id]} tested against {env[r.id]}"),
                              ctx.prog.loc(n))
@@ -321,11 +321,11 @@ def position_vs_rank(ctx):
                 attr = n.value.attr
                 u = env[n.slice.id]
                 bad = attr in fl.sorted | fl.pos and u == "POS"
-                yield Ob("C06.R3", ["C06", "C02"], f"{f.qual} | subscript | {norm(n)}", not bad,
+                yield Ob("C06.R3", ["C06", "C02", "C01", "C07"], f"{f.qual} | subscript | {norm(n)}", not bad,
                          (f"self.{attr} is rank-indexed but `{n.slice.id}` is a storage position"
                           if bad else f"self.{attr}[{u}]"), ctx.prog.loc(n))
     if n_sites == 0:
-        yield Ob("C06.R3", ["C06", "C02"], "Index | no rank/position mixing sites", True,
+        yield Ob("C06.R3", ["C06", "C02", "C01", "C07"], "Index | no rank/position mixing sites", True,
                  "no membership or subscript site mixes inferred units", nontrivial=False)
 
 
@@ -606,7 +606,7 @@ def _buffer_sorted_by(ctx, f: Func, buf: str, elt: ast.AST, tgt: ast.AST, stmt: 
     return True, f"projection of `{buf}` sorted by the projected key"
 
 
-@rule("C06.R6", ["C06", "C01", "C18"], min_instances=3, design="3.6")
+@rule("C06.R6", ["C06", "C01"], min_instances=3, design="3.6")
 def timestamps_stay_sorted(ctx):
     """Every write of the sorted timestamp container keeps it sorted by construction."""
     fl = fields_of(ctx)
@@ -617,15 +617,15 @@ def timestamps_stay_sorted(ctx):
             for n in dw.get(attr, []):
                 if isinstance(n, ast.Assign):
                     ok, why = _sorted_source(ctx, f, n.value, fl, n)
-                    yield Ob("C06.R6", ["C06", "C01", "C18"], f"{f.qual} | write {attr} | {norm(n, 100)}", ok, why,
+                    yield Ob("C06.R6", ["C06", "C01"], f"{f.qual} | write {attr} | {norm(n, 100)}", ok, why,
                              ctx.prog.loc(n))
                 elif isinstance(n, ast.Call) and n.func.attr == "append":
                     append_funcs.append(f)
-                    yield Ob("C06.R6", ["C06", "C01", "C18"], f"{f.qual} | append {attr} | {norm(n, 100)}", True,
+                    yield Ob("C06.R6", ["C06", "C01"], f"{f.qual} | append {attr} | {norm(n, 100)}", True,
                              "in-order append; callers must pass the order test (checked at the call sites)",
                              ctx.prog.loc(n), nontrivial=False)
                 else:
-                    yield Ob("C06.R6", ["C06", "C01", "C18"], f"{f.qual} | mutate {attr} | {norm(n, 100)}", False,
+                    yield Ob("C06.R6", ["C06", "C01"], f"{f.qual} | mutate {attr} | {norm(n, 100)}", False,
                              "in-place mutation of the sorted container that is neither an append nor an "
                              "order-preserving rebuild", ctx.prog.loc(n))
     # the appending operation is reachable from outside only under the order test
@@ -657,7 +657,7 @@ def timestamps_stay_sorted(ctx):
                         why = "guarded by the order test (empty or time >= latest_time)"
                     else:
                         why = f"order guard has the wrong shape: {sorted(want)}"
-                yield Ob("C06.R6", ["C06", "C01", "C18"], f"{f.qual} | in-order insert guard | {norm(n, 80)}", ok, why,
+                yield Ob("C06.R6", ["C06", "C01"], f"{f.qual} | in-order insert guard | {norm(n, 80)}", ok, why,
                          ctx.prog.loc(n))
         # and the out-of-order branch may only invalidate, exactly when out of order
         for f, n in ext.get("invalidate", []):
@@ -675,7 +675,7 @@ def timestamps_stay_sorted(ctx):
                      ctx.prog.loc(n))
 
 
-@rule("C06.R7", ["C06", "C13"], min_instances=1, design="3.6")
+@rule("C06.R7", ["C06", "C13", "C01"], min_instances=1, design="3.6")
 def valid_flag_set_last(ctx):
     """In a rebuild, the validity flag is set true only after every statement that may raise."""
     fl = fields_of(ctx)
@@ -716,7 +716,7 @@ def valid_flag_set_last(ctx):
 
         setters = [x for x in g.stmt_nodes() if sets_valid(x)]
         if not setters:
-            yield Ob("C06.R7", ["C06", "C13"], f"{m.qual} | rebuild sets flag", False,
+            yield Ob("C06.R7", ["C06", "C13", "C01"], f"{m.qual} | rebuild sets flag", False,
                      "rebuild never marks the index valid", m.loc())
             continue
         bad = []
@@ -734,4 +734,216 @@ def valid_flag_set_last(ctx):
                    f" leaving a valid partially built index")
         else:
             msg = "flag is set true only after every may-raise statement of the rebuild"
-        yield Ob("C06.R7", ["C06", "C13"], f"{m.qual} | validity flag set last", ok, msg, m.loc())
+        yield Ob("C06.R7", ["C06", "C13", "C01"], f"{m.qual} | validity flag set last", ok, msg, m.loc())
+
+
+@rule("C06.R8", ["C06", "C01", "C07"], min_instances=3, design="3.6")
+def position_bookkeeping(ctx):
+    """Within one indexing step every container receives the same storage position for the same point."""
+    fl = fields_of(ctx)
+    S = next(iter(fl.sorted))
+    P = next(iter(fl.pos))
+    helpers = {}
+    for m in ctx.prog.cls("Index").methods.values():
+        if m.name.startswith("_insert_") and len(m.params()) >= 2:
+            helpers[m.name] = m
+    # (a) the per-point loops of insert/build hand one position expression to every helper
+    for q in ("Index.insert", "Index.build"):
+        f = ctx.prog.func(q, "C06.R8")
+        loops = [n for n in walk_local(f.node) if isinstance(n, ast.For) and isinstance(n.iter, ast.Call)
+                 and isinstance(n.iter.func, ast.Name) and n.iter.func.id == "enumerate"
+                 and n.iter.args and isinstance(n.iter.args[0], ast.Name) and n.iter.args[0].id in f.params()]
+        if len(loops) != 1 or not isinstance(loops[0].target, ast.Tuple):
+            raise AnalysisError("C06.R8", f"{q}: per-point enumerate loop not recognised")
+        lp = loops[0]
+        if len(lp.iter.args) > 1 or lp.iter.keywords:
+            start_arg = lp.iter.args[1] if len(lp.iter.args) > 1 else lp.iter.keywords[0].value
+        else:
+            start_arg = None
+        ivar = norm(lp.target.elts[0])
+        pvar = norm(lp.target.elts[1])
+        bad = []
+        posargs = {}
+        n_time = 0
+        for n in walk_local(lp):
+            if isinstance(n, ast.Call) and isinstance(n.func, ast.Attribute) and is_self_attr(n.func) \
+                    and n.func.attr in helpers:
+                h = helpers[n.func.attr]
+                ann0 = h.param_annotation(h.params()[1])
+                if ann0 is not None and norm(ann0) == "int":
+                    posargs[n.func.attr] = norm(n.args[0]) if n.args else "?"
+                    if len(n.args) > 1 and not norm(n.args[1]).startswith(pvar + "."):
+                        bad.append(f"{n.func.attr} receives `{norm(n.args[1])}`, not an attribute of the loop's point")
+                else:
+                    n_time += 1
+                    if not (n.args and norm(n.args[0]).startswith(pvar + ".")):
+                        bad.append(f"{n.func.attr} receives `{norm(n.args[0]) if n.args else '?'}`")
+        if len(set(posargs.values())) > 1:
+            bad.append(f"helpers receive different positions: {posargs}")
+        if len(posargs) < 3:
+            bad.append(f"expected tags, fields and measurements to be indexed per point, found {sorted(posargs)}")
+        pos = next(iter(posargs.values())) if posargs else None
+        if q == "Index.insert":
+            # position = <count before the loop> + enumerate index ; the time helper runs once per point
+            if n_time != 1:
+                bad.append(f"the timestamp helper runs {n_time} times per point")
+            vals = assignments_to(f, pos) if pos and pos.isidentifier() else []
+            ok_def = False
+            for v in vals:
+                if isinstance(v, ast.BinOp) and isinstance(v.op, ast.Add):
+                    parts = {norm(v.left), norm(v.right)}
+                    other = parts - {ivar}
+                    if ivar in parts and len(other) == 1:
+                        base = other.pop()
+                        bvals = assignments_to(f, base) if base.isidentifier() else []
+                        if bvals and all(norm(b) in (f"len(self.{S})", f"len(self.{P})", f"self.{next(iter(fl.count))}")
+                                         and not in_loop(b, lp) for b in bvals):
+                            ok_def = True
+            if pos == ivar and start_arg is not None and norm(start_arg) in (f"len(self.{S})", f"len(self.{P})"):
+                ok_def = True
+            if not ok_def:
+                bad.append(f"position `{pos}` is not <number of indexed items before the loop> + <enumerate index>")
+        else:
+            if pos != ivar or start_arg is not None:
+                bad.append(f"rebuild positions are `{pos}`, expected the enumerate index of the storage rows from 0")
+            # the timestamp buffer pairs the same position with the timestamp
+            apps = [n for n in walk_local(lp) if isinstance(n, ast.Call) and isinstance(n.func, ast.Attribute)
+                    and n.func.attr == "append" and n.args and isinstance(n.args[0], ast.Tuple)]
+            if len(apps) != 1 or [norm(e) for e in apps[0].args[0].elts] != [f"{pvar}.time.timestamp()", ivar]:
+                bad.append("timestamp buffer does not receive (point.time.timestamp(), position)")
+        yield Ob("C06.R8", ["C06", "C01", "C07"], f"{q} | one position per point for every container", not bad,
+                 "; ".join(bad[:3]) if bad else f"all containers indexed with `{pos}`", f.loc())
+    # (b) the in-order time helper records len(S) as the position *before* S grows
+    for h in helpers.values():
+        dw = direct_writes(h)
+        if S in dw and P in dw:
+            g = ctx.cfg(h, exceptional=False)
+            pa = [n for n in dw[P] if isinstance(n, ast.Call) and n.func.attr == "append"]
+            sa = [n for n in dw[S] if isinstance(n, ast.Call) and n.func.attr == "append"]
+            bad = []
+            if len(pa) != 1 or len(sa) != 1:
+                bad.append("expected one append to each parallel array")
+            else:
+                if norm(pa[0].args[0]) not in (f"len(self.{S})", f"len(self.{P})"):
+                    bad.append(f"position appended is `{norm(pa[0].args[0])}`, expected the current length")
+                pid = g.ids_of(stmt_of(pa[0]))
+                sid = g.ids_of(stmt_of(sa[0]))
+                if norm(pa[0].args[0]) == f"len(self.{S})" and pid and sid and pid[0] in g.reachable(sid):
+                    bad.append("the timestamp is appended before its position is taken from len(timestamps): "
+                               "positions are off by one")
+                if not (sa[0].args and norm(sa[0].args[0]).endswith(".timestamp()")):
+                    bad.append(f"timestamp appended is `{norm(sa[0].args[0]) if sa[0].args else '?'}`")
+            yield Ob("C06.R8", ["C06", "C01", "C07"], f"{h.qual} | position taken before the timestamp is appended", not bad,
+                     "; ".join(bad) if bad else "P.append(len(S)) precedes S.append(timestamp)", h.loc())
+
+
+def in_loop(n: ast.AST, lp: ast.AST) -> bool:
+    for a in ancestors(n):
+        if a is lp:
+            return True
+    return False
+
+
+@rule("C06.R9", ["C06", "C07"], min_instances=3, design="3.6")
+def removal_drops_empty_containers(ctx):
+    """After Index.remove no key/value of an inverted map is left with an empty position list (a rebuilt index never has one)."""
+    fl = fields_of(ctx)
+    rm = ctx.prog.func("Index.remove", "C06.R9")
+    helpers = [h for h in self_calls(ctx, rm) if any(a in direct_writes(h) for a in fl.maps)]
+    if len(helpers) < 3:
+        raise AnalysisError("C06.R9", f"expected 3 map-pruning helpers of Index.remove, found {[h.qual for h in helpers]}")
+    for h in helpers:
+        bad = []
+        n_store = 0
+        r_items = h.params()[1]
+        for n in walk_local(h.node):
+            # stores of a (possibly filtered) position list into the new container
+            val = None
+            if isinstance(n, ast.Assign) and isinstance(n.targets[0], ast.Subscript):
+                val = n.value
+            elif isinstance(n, (ast.DictComp,)):
+                val = n.value
+            if val is None:
+                continue
+            # which name holds the filtered list?
+            names_ = [x.id for x in ast.walk(val) if isinstance(x, ast.Name)]
+            filt = None
+            for nm in names_:
+                for v in assignments_to(h, nm):
+                    if isinstance(v, ast.ListComp) and any(r_items in norm(c) for c in v.generators[0].ifs):
+                        filt = nm
+            if isinstance(val, ast.ListComp) and any(r_items in norm(c) for c in val.generators[0].ifs):
+                filt = "<inline>"
+            if filt is None:
+                continue
+            n_store += 1
+            cl = guard_clauses(guards(n))
+            ok = filt != "<inline>" and any(len(c) == 1 and next(iter(c)) == (f"truthy({filt})", True) for c in cl)
+            if isinstance(n, ast.DictComp):
+                ok = any(norm(c) == filt for g_ in n.generators for c in g_.ifs)
+            if not ok:
+                bad.append(f"`{norm(n, 70)}` keeps the key even when every position was removed: getters keep "
+                           f"reporting a key/value no stored point has")
+        if n_store == 0:
+            bad.append("no store of a filtered position list found")
+        yield Ob("C06.R9", ["C06", "C07"], f"{h.qual} | prunes emptied keys", not bad,
+                 "; ".join(bad[:2]) if bad else f"{n_store} store(s) guarded by a non-empty test", h.loc())
+
+
+@rule("C06.R10", ["C06", "C02", "C10", "C01", "C07"], min_instances=3, design="3.6")
+def renumbering_is_total(ctx):
+    """Index.update maps every stored position of every container through the old->new table, unconditionally."""
+    fl = fields_of(ctx)
+    up = ctx.prog.func("Index.update", "C06.R10")
+    helpers = [h for h in self_calls(ctx, up)]
+    if len(helpers) < 3:
+        raise AnalysisError("C06.R10", f"expected renumbering helpers of Index.update, found {[h.qual for h in helpers]}")
+    for h in helpers:
+        u = h.params()[1]
+        bad = []
+        stores = []
+        for n in walk_local(h.node):
+            if isinstance(n, ast.Assign) and isinstance(n.value, ast.ListComp):
+                t = n.targets[0]
+                base = t
+                while isinstance(base, ast.Subscript):
+                    base = base.value
+                if is_self_attr(base) and base.attr in fl.position_bearing:
+                    stores.append(n)
+        if not stores:
+            bad.append("no renumbering store found")
+        for n in stores:
+            lc = n.value
+            gen = lc.generators[0]
+            if gen.ifs or len(lc.generators) != 1:
+                bad.append(f"`{norm(n, 60)}` filters while renumbering")
+            cond = [c for c, pol in guards(n) if not hasattr(c, "stmt")]
+            if cond or any(hasattr(c, "stmt") for c, pol in guards(n)):
+                bad.append(f"renumbering of a container entry is conditional ({norm(cond[0], 40) if cond else 'skipped by an early continue'}): "
+                           f"entries that are skipped keep stale positions")
+            e = lc.elt
+            tv = norm(gen.target)
+            ok_elt = False
+            if isinstance(e, ast.IfExp):
+                if norm(e.test) == f"{tv} in {u}" and norm(e.body) == f"{u}[{tv}]" and norm(e.orelse) == tv:
+                    ok_elt = True
+                if norm(e.test) == f"{tv}[0] in {u}" and norm(e.orelse) == tv and isinstance(e.body, ast.Tuple) \
+                        and [norm(x) for x in e.body.elts] == [f"{u}[{tv}[0]]", f"{tv}[1]"]:
+                    ok_elt = True
+            if isinstance(e, ast.Call) and norm(e) == f"{u}.get({tv}, {tv})":
+                ok_elt = True
+            if not ok_elt:
+                bad.append(f"element `{norm(e, 50)}` is not `new[i] if i in new else i`")
+            # iterated list must be the container's own current content
+            src = gen.iter
+            if isinstance(src, ast.Name):
+                lp = None
+                for a in ancestors(n):
+                    if isinstance(a, ast.For) and src.id in {x.id for x in ast.walk(a.target) if isinstance(x, ast.Name)}:
+                        lp = a
+                if lp is None:
+                    bad.append(f"`{src.id}` is not bound by an enclosing loop over the container")
+            elif not is_self_attr(src):
+                bad.append(f"iterates `{norm(src, 40)}`")
+        yield Ob("C06.R10", ["C06", "C02", "C10", "C01", "C07"], f"{h.qual} | total renumbering", not bad,
+                 "; ".join(bad[:2]) if bad else f"{len(stores)} unconditional element-wise map(s)", h.loc())
